@@ -23,6 +23,7 @@ M = [
   "copy( new char[ ::strlen( arg0) + 1]);\n\n   ::strcpy( copy.get(), arg0);\n\n   const char*  progNameOnly",
   "copy( new char[ ::strlen( arg0)]);\n\n   ::strcpy( copy.get(), arg0);\n\n   const char*  progNameOnly"),
  ("c05_no_mismatch_check", "src/celma/prog_args/detail/storage.hpp", "if (entry.mismatch( key))", "if (false && entry.mismatch( key))"),
+ ("c05_subgroup_keys_no_abbrev", "src/library/prog_args/handler.cpp", "   mSubGroupArgs( (flag_set & hfNoAbbr) == 0, true),", "   mSubGroupArgs( false, true),"),
  ("c05_abbr_first_match_wins", "src/library/prog_args/detail/argument_container.cpp", "   if (ambiguous)\n      throw", "   if (false && ambiguous)\n      throw"),
  ("c06_clear_every_use", "src/celma/prog_args/detail/typed_arg.hpp", "      mDestVar.clear();\n      // clear only once\n      mClearB4Assign = false;", "      mDestVar.clear();"),
  ("c06_unique_skips_first_element", "src/celma/prog_args/detail/typed_arg.hpp",
@@ -53,11 +54,11 @@ M = [
   "   if (mCheckOrigValue && (mDestVar != mOrigValue))", "   if (false && mCheckOrigValue && (mDestVar != mOrigValue))"),
  # sub-groups and value mode 'command' (docs/notes_prog_args_subgroups.md)
  ("c03_subgroup_skips_next_word", "src/library/prog_args/handler.cpp",
-  "      if (!subUsed && (ai != end))\n         ai = keyAI;", "      if (false && !subUsed && (ai != end))\n         ai = keyAI;"),
+  "      auto  subAI( ai);\n      ++subAI;", "      ++ai;\n      auto  subAI( ai);"),
  ("c03_subgroup_keeps_last_arg", "src/library/prog_args/handler.cpp",
-  "         ai = keyAI;\n\n      mpLastArg = nullptr;\n      return ArgResult::consumed;", "         ai = keyAI;\n\n      return ArgResult::consumed;"),
+  "      } // end while\n\n      mpLastArg = nullptr;\n      return ArgResult::consumed;", "      } // end while\n\n      return ArgResult::consumed;"),
  ("c08_subgroup_one_argument_only", "src/library/prog_args/handler.cpp",
-  "         ai = subAI++;\n         subUsed = true;\n      } // end while", "         ai = subAI++;\n         subUsed = true;\n         break;\n      } // end while"),
+  "         ai = subAI++;\n      } // end while", "         ai = subAI++;\n         break;\n      } // end while"),
  ("c08_groups_ignore_command_last", "src/library/prog_args/groups.cpp",
   "      if (result == Handler::ArgResult::last)\n         break;   // for", "      if (false && (result == Handler::ArgResult::last))\n         break;   // for"),
  ("c01_command_long_key_refused", "src/celma/prog_args/detail/arg_list_iterator.hpp",
